@@ -261,3 +261,17 @@ Theorem C03_stats_layout_invariance :
     stats_answer event S merge unit inj L1 = stats_answer event S merge unit inj L2.
 Proof. exact stats_layout_invariance. Qed.
 Print Assumptions C03_stats_layout_invariance.
+
+(* ---- tie by translation: the Gallina definitions regenerated from metacheckers.go by gotrans on
+   every run (FilterOperator constants read from segconsts.go) are the model's pass_rangeZ, so the
+   pruning-soundness theorems above are about what the Go range checkers compute ---- *)
+From SigG Require Import Gen.
+From SigP Require Import GenC03.
+Theorem C03_code_doesIntPassRangeFilter_is_model : forall o l mn mx,
+  gen_doesIntPassRangeFilter (op_to_code o) l mn mx = pass_rangeZ o l mn mx.
+Proof. exact gen_doesIntPassRangeFilter_is_model. Qed.
+Print Assumptions C03_code_doesIntPassRangeFilter_is_model.
+Theorem C03_code_doesUintPassRangeFilter_is_model : forall o l mn mx,
+  gen_doesUintPassRangeFilter (op_to_code o) l mn mx = pass_rangeZ o l mn mx.
+Proof. exact gen_doesUintPassRangeFilter_is_model. Qed.
+Print Assumptions C03_code_doesUintPassRangeFilter_is_model.
